@@ -160,9 +160,15 @@ def check_guards(ctx, wm: WeaverModel):
     # 7 dataset name
     lfi = ctx.prog.func('traffic_weaver.datasets._base.load_dataset')
     from ..datasets_model import unknown_name_outcome
-    raises, returned, _ = unknown_name_outcome(ctx.prog)
+    raises, returned, uev = unknown_name_outcome(ctx.prog)
     ok = bool(raises) and all(r == 'ValueError' for r in raises) and not returned
-    ctx.check(ok, 'C20.1', 'unknown dataset name: the failed lookup (AttributeError) is converted to ValueError', f"raises {raises}; returns {returned}", lfi.loc(), lfi.qualname, 'dataset')
+    from ..datasets_model import dynamic_lookup_namespaces
+    dyn = dynamic_lookup_namespaces(ctx.prog, uev)
+    if not ok and dyn:
+        ctx.unknown('C20.1', 'unknown dataset name: the failed lookup (AttributeError) is converted to ValueError',
+                    f"the namespace of {dyn} is built at import time: which names it binds is not decidable from the source text", lfi.loc(), lfi.qualname, 'dataset')
+    else:
+        ctx.check(ok, 'C20.1', 'unknown dataset name: the failed lookup (AttributeError) is converted to ValueError', f"raises {raises}; returns {returned}", lfi.loc(), lfi.qualname, 'dataset')
     # 8 fixed points
     pfi = ctx.prog.func(MATCH + 'integral_matching_reference_stretch')
     for mode, extra, want in (('values', {'fixed_points_in_x': arr_param('FP', kind='list'), 'fixed_points_indices_in_x': Const(None)}, 2),
